@@ -1061,8 +1061,23 @@ def check_scale(inp, which_outputs):
         base = fn(ref, est, inp["cp"])
         r2, e2 = ref.copy(), est.copy()
         (r2 if inp["scale_which"] == "ref" else e2)[inp["scale_index"]] *= inp["scale_factor"]
+        again = None
+        if inp.get("inplace"):
+            # the SAME array objects that were just scored, rescaled in place, scored again (directly after the first
+            # call, nothing in between): the criteria are a function of the signals' values, so this call must agree with
+            # the one on fresh copies of the same values
+            (ref if inp["scale_which"] == "ref" else est)[inp["scale_index"]] *= inp["scale_factor"]
+            again = fn(ref, est, inp["cp"])
         new = fn(r2, e2, inp["cp"])
     names = ["sdr", "isr", "sir", "sar"] if _is_images(inp) else ["sdr", "sir", "sar"]
+    if again is not None:
+        for o in range(len(names) + 1):
+            a, b = np.asarray(again[o], dtype=float), np.asarray(new[o], dtype=float)
+            if a.shape != b.shape or not np.allclose(a, b, rtol=0, atol=1e-9, equal_nan=True):
+                return ("%s = %r when the arrays scored a moment ago are rescaled in place (%s source %d times %r) and "
+                        "scored again, but %r on fresh copies of the same values: the result depends on the objects' "
+                        "history" % ((names + ["perm"])[o], a.tolist(), inp["scale_which"], inp["scale_index"],
+                                     inp["scale_factor"], b.tolist()))
     if not np.array_equal(base[-1], new[-1]):
         return "perm changes from %r to %r when %s source %d is multiplied by %r" % (
             base[-1].tolist(), new[-1].tolist(), inp["scale_which"], inp["scale_index"], inp["scale_factor"])
@@ -1536,6 +1551,7 @@ def _gen_nonframewise(fnname):
                 r["scale_which"] = rng.choice(["ref", "est"])
                 r["scale_index"] = rng.randrange(nsrc)
                 r["scale_factor"] = rng.choice([-3.7, 0.01, 2.5, 1000.0, -1.0, 0.3, 2.0 ** -30, -(2.0 ** -30), 2.0 ** 30])  # extreme factors are powers of two: exact in binary64
+                r["inplace"] = rng.random() < 0.5
             elif pick < 0.65:
                 r["check"] = "perm"
             elif pick < 0.8:
